@@ -3,21 +3,14 @@
 From Coq Require Import List Arith ZArith Bool Lia Permutation Wf_nat.
 From MptV Require Import C14.NodeModel C14.NodeSpec C14.NodeRep C14.NodeFocus C14.NodeExec
   C14.NodeLocal C14.NodeInv C14.NodeRefine C14.NodeFree C14.NodeClone C14.NodeInsert C14.NodeInsertName
-  C14.NodeWalk C14.NodeEnd C14.NodeMove C14.NodeMoveStep.
+  C14.NodeWalk C14.NodeEnd C14.NodeMove C14.NodeMoveStep C14.NodeSwap C14.NodeSwitch.
 Import ListNotations.
 Local Open Scope nat_scope.
 
-(* the operations whose refinement is proved for every state *)
-Definition proved (o : op) : Prop :=
-  match o with
-  | ONew _ _ | OAfter _ _ | OBefore _ _ | OAdd _ _ _ _ | OIns _ _ _ _ | OUnlink _ | OMove _ _ | OLMove _ _
-  | OClone _ | OLClone _ | OTClone _ | OClear _ | ODestroy _ | ORelink _ | OTrav _ _ _ | OEnd => True
-  | _ => False
-  end.
-
-Lemma step_proved o : proved o -> refines_step o.
+(* every operation of the history language refines its forest specification *)
+Lemma step_all o : refines_step o.
 Proof.
-  destruct o; cbn [proved]; intros P; try contradiction.
+  destruct o.
   - apply step_new.
   - apply step_after.
   - apply step_before.
@@ -31,6 +24,8 @@ Proof.
   - apply step_tclone.
   - apply step_clear.
   - apply step_destroy.
+  - apply step_swap.
+  - apply step_switch.
   - apply step_relink.
   - apply step_trav.
   - apply step_end.
@@ -45,12 +40,10 @@ Fixpoint run_rel (m : list (option (out * heap))) (sp : list (out * sstate)) : P
   | _, _ => False
   end.
 
-Lemma history_refines : forall ops h s,
-  inv h s -> Forall proved ops -> run_rel (mrun h ops) (srun s ops).
+Lemma history_refines : forall ops h s, inv h s -> run_rel (mrun h ops) (srun s ops).
 Proof.
-  induction ops as [|o ops IH]; intros h s I F; [exact Logic.I|].
-  inversion F as [|? ? Po Fr]; subst.
-  destruct (step_proved o Po h s I) as (h' & E & I').
+  induction ops as [|o ops IH]; intros h s I; [exact Logic.I|].
+  destruct (step_all o h s I) as (h' & E & I').
   cbn [mrun srun]. rewrite E. destruct (sstep s o) as [s' out]. cbn [fst snd] in *.
   cbn [run_rel]. split; [reflexivity|]. split; [exact I'|]. apply IH; assumption.
 Qed.
@@ -65,9 +58,9 @@ Qed.
 (* well-formedness: the links of the heap are exactly those of some forest *)
 Definition wf (h : heap) : Prop := exists s, inv h s.
 
-Lemma wf_step o h : proved o -> wf h -> exists h' out, mstep h o = ROk (h', out) /\ wf h'.
+Lemma wf_step o h : wf h -> exists h' out, mstep h o = ROk (h', out) /\ wf h'.
 Proof.
-  intros P [s I]. destruct (step_proved o P h s I) as (h' & E & I').
+  intros [s I]. destruct (step_all o h s I) as (h' & E & I').
   exists h', (snd (sstep s o)). split; [exact E|]. exists (fst (sstep s o)). exact I'.
 Qed.
 
